@@ -104,6 +104,22 @@ def run(ctx):
     cnt = ev.heap.get((SELF, "n_likelihood_evaluations"))
     want = T.add(self_attr("n_likelihood_evaluations"), T.app("len", s))
     want2 = T.add(self_attr("n_likelihood_evaluations"), T.app("len", ("attr", s, "x")))
+    # ---- the two callables reach the sampler under their own names: through every constructor chain (sampler classes, the front end's
+    #      keyword hand-over) a positional `log_likelihood` / `log_prior` lands in the parameter of the same name
+    from .common import positional_name_mismatches
+    st_ = {}
+    in_hier = lambda callee: (callee.cls is not None and base in callee.cls.mro()) or callee.ident.startswith("aspire.samplers")
+    mism = list(positional_name_mismatches(repo, want=in_hier, stats=st_))
+    ctx.count("constructor_and_method_calls_checked_for_argument_order", st_.get("resolved_calls_with_positional_arguments", 0))
+    ctx.floor("sampler-hierarchy calls with positional arguments", st_.get("resolved_calls_with_positional_arguments", 0), 20)
+    if not mism:
+        ctx.prove("C17.args", "aspire.samplers", "src/aspire/samplers",
+                  f"every positional name argument of the {st_.get('resolved_calls_with_positional_arguments', 0)} resolved calls into the sampler hierarchy sits at the position of the parameter it is named after")
+    for f_, call_, callee_, i_, a_, p_ in mism:
+        ctx.refute("C17.args", f_.ident, loc_of(f_, call_),
+                   f"`{a_}` is passed positionally to {callee_.ident}, whose parameter at that position is `{p_}`: the callee stores the caller's {a_} as its {p_}"
+                   + (" -- the sampler then evaluates the user's likelihood where it means to evaluate the prior (before any prior value exists on the set, and uncounted) and the prior where it counts likelihood calls"
+                      if {a_, p_} == {"log_likelihood", "log_prior"} else ""), disc=f"{callee_.ident}|{a_}")
     ctx.decide(cnt in (want, want2), "C17.cnt", wrapper.ident, loc_of(wrapper), "wrapper adds len(samples) to the counter",
                f"counter becomes {T.show(cnt)[:120] if cnt else 'unchanged'}, expected counter + len(samples)", disc="add")
     ok = T.strip_raise(ret) == ("f", "method:_log_likelihood", (SELF, s), ())
@@ -183,7 +199,14 @@ MUTANTS = [
     M("counter reset during sampling", _B, "self.target_efficiency = target_efficiency\n", "self.target_efficiency = target_efficiency\n        self.n_likelihood_evaluations = 0\n", "C17.cnt"),
     M("subclass overrides the wrapper", _MP, "def log_prob(self, x, beta=None):\n        return super().log_prob(x, beta)", "def log_likelihood(self, samples):\n        return self._log_likelihood(samples)\n\n    def log_prob(self, x, beta=None):\n        return super().log_prob(x, beta)", "C17.cnt"),
 ]
+MUTANTS += [
+    M("base sampler constructor lists the prior first; one positional super().__init__ is left behind", "src/aspire/samplers/smc/base.py",
+      "log_likelihood: Callable,\n        log_prior: Callable,\n        dims: int,\n        prior_flow: Flow,\n        xp: Callable,\n        dtype: Any | str | None = None,\n        parameters: list[str] | None = None,\n        rng: np.random.Generator | None = None,\n        preconditioning_transform: Callable | None = None,\n    ):\n        super().__init__(\n            log_likelihood=log_likelihood,",
+      "log_prior: Callable,\n        log_likelihood: Callable,\n        dims: int,\n        prior_flow: Flow,\n        xp: Callable,\n        dtype: Any | str | None = None,\n        parameters: list[str] | None = None,\n        rng: np.random.Generator | None = None,\n        preconditioning_transform: Callable | None = None,\n    ):\n        super().__init__(\n            log_likelihood=log_likelihood,", "C17.args"),
+]
 NEUTRALS = [
+    M("positional constructor call rewritten with keywords", "src/aspire/samplers/smc/base.py", "super().__init__(\n            log_likelihood,\n            log_prior,\n            dims,",
+      "super().__init__(\n            log_likelihood=log_likelihood,\n            log_prior=log_prior,\n            dims=dims,"),
     M("importance: prior via temporary", _I, "samples.log_prior = samples.array_to_namespace(self.log_prior(samples))", "lp = self.log_prior(samples)\n        samples.log_prior = samples.array_to_namespace(lp)"),
     M("counter via explicit sum", _SB, "self.n_likelihood_evaluations += len(samples)", "self.n_likelihood_evaluations = self.n_likelihood_evaluations + len(samples)"),
     M("initial draw: trim via explicit slice object", _MC, "samples = samples[:n_samples]", "samples = samples[slice(None, n_samples)]"),
